@@ -13,6 +13,7 @@ import (
 	"github.com/CloudyKit/jet/v6/loaders/httpfs"
 	"github.com/CloudyKit/jet/v6/loaders/multi"
 	"github.com/CloudyKit/jet/v6/utils"
+	"verifh/internal/data"
 	"verifh/internal/fw"
 	"verifh/internal/jx"
 )
@@ -326,6 +327,18 @@ var witnesses = []fw.Witness{
 			}
 		}
 		return ""
+	}},
+	{Prop: "C12", Name: "range-assign-form-with-underscore", Run: func() string {
+		v := jet.VarMap{}
+		v.Set("xs", []string{"a", "b"})
+		if m := wout(jx.Run(map[string]string{"/t.jet": `{{k := 9}}{{range k, _ = xs}}[{{k}}|{{.}}]{{end}}|{{k}}`}, "/t.jet", v, "ctx", jx.NoEscape), "[0|ctx][1|ctx]|1"); m != "" {
+			return m
+		}
+		return wout(jx.Run(map[string]string{"/t.jet": `{{k := 9}}{{range _, k = xs}}[{{k}}|{{.}}]{{end}}|{{k}}`}, "/t.jet", v, "ctx", jx.NoEscape), "[a|ctx][b|ctx]|b")
+	}},
+	{Prop: "C06", Name: "promoted-through-pointer-vs-deeper-value", Run: func() string {
+		pv := data.PtrVsVal{PA: &data.PA{PX: "shallow-through-pointer"}, VB: data.VB{VC: data.VC{PX: "deeper-by-value", VY: "y"}}}
+		return wout(wone(`{{ .PX }}|{{ .["PX"] }}|{{ .VY }}|{{ .VB.PX }}`, nil, pv), "shallow-through-pointer|shallow-through-pointer|y|deeper-by-value")
 	}},
 	{Prop: "C05", Name: "ranger-behind-interface", Run: func() string {
 		v := jet.VarMap{}
